@@ -134,7 +134,7 @@ func runScenario(s scenario) result {
 	case "handler":
 		var h *fpgo.HandlerDef
 		if s.Cap < 0 {
-			h = fpgo.Handler.New()
+			h = fpgo.Handler.GetDefault().New() // any handler value is a factory
 		} else {
 			h = fpgo.Handler.NewByCh(make(chan func(), s.Cap))
 		}
@@ -147,9 +147,15 @@ func runScenario(s scenario) result {
 			}
 			mb.process(tg, s.Work)
 		}
-		if s.Cap < 0 {
+		var factory fpgo.ActorDef[tag]
+		switch {
+		case s.Cap < 0 && len(s.Counts)%2 == 0:
+			actor = factory.New(effect) // method-form constructors
+		case s.Cap < 0:
 			actor = fpgo.ActorNewGenerics(effect)
-		} else {
+		case len(s.Counts)%2 == 0:
+			actor = factory.NewByOptions(effect, make(chan tag, s.Cap), map[string]interface{}{})
+		default:
 			actor = fpgo.ActorNewByOptionsGenerics(effect, make(chan tag, s.Cap), map[string]interface{}{})
 		}
 		send = func(tg tag) { actor.Send(tg) }
@@ -578,7 +584,7 @@ func TestReplayJSON(t *testing.T) {
 }
 
 func TestMailbox(t *testing.T) {
-	vlib.Check(t, "mailbox", 2500, 6000, func(t *rapid.T) {
+	vlib.Check(t, "mailbox", 2500, 40000, func(t *rapid.T) {
 		s := genScenario(t)
 		st := vlib.S()
 		st.Eval("mailbox")
@@ -595,7 +601,7 @@ func TestMailbox(t *testing.T) {
 }
 
 func TestSpawnTree(t *testing.T) {
-	vlib.Check(t, "tree", 2500, 6000, func(t *rapid.T) {
+	vlib.Check(t, "tree", 2500, 40000, func(t *rapid.T) {
 		ts := genTree(t)
 		st := vlib.S()
 		st.Eval("tree")
